@@ -318,3 +318,48 @@ def run_option_family(seed):
                                  'msg': f'equal node hashes (NodeHash ==) for {mem[i][0]} and {mem[j][0]} over one dataset, but different values: '
                                         f'{mem[i][2][:100]} vs {mem[j][2][:100]}'})
     return {'variants': len(recs), 'pairs': sum(len(r) - 1 for r in groups.values())}, problems
+
+
+def run_byvalue_groups(seed):
+    """GroupBy over a field hashed BY VALUE whose values repeat across entries: two groups whose members have pairwise equal values
+    are different dicts (the old ids are the keys), so their node hashes differ (C05) and a cache behind the GroupBy returns each
+    group's own dict (C04)"""
+    from .suite_pickle import digest_of
+    rng = random.Random(seed)
+    n = rng.randint(1, 3)
+    ids = [f'i{k}' for k in range(2 * n)] + ([f'i{2 * n}'] if rng.random() < 0.5 else [])
+    group = {i: ('p1' if k < n else 'p2' if k < 2 * n else 'p3') for k, i in enumerate(ids)}
+    vals = {i: f'v{k % n}' for k, i in enumerate(ids)}          # the k-th member of p1 and of p2 have the same value
+    src = {'k': 'source', 'cls': 'BG', 'ids': ids, 'params': {}, 'cargs': {}, 'defaults': {},
+           'fields': {'t': {'args': ['i'], 'f': 'BG.t', 'byvalue': True, 'table': [[[i], vals[i]] for i in ids]},
+                      'kk': {'args': ['i'], 'f': 'BG.kk', 'table': [[[i], group[i]] for i in ids]},
+                      'x': {'args': ['i'], 'f': 'BG.x'}}}
+    derived = {'k': 'transform', 'cls': 'BD', 'fields': {'u': {'args': ['t'], 'f': 'BD.u'}}, 'params': {}, 'cargs': {}, 'defaults': {}, 'inherit': True}
+    cache = rng.choice([None, {'k': 'ram', 'names': None, 'size': None}, {'k': 'ram', 'names': ['t', 'u'], 'size': 3}])
+    layers = [src] + ([derived] if rng.random() < 0.5 else []) + [{'k': 'groupby', 'by': 'kk'}] + ([cache] if cache else [])
+    problems = []
+    world = SymWorld()
+    b = Builder(world)
+    paths.use_repo()
+    try:
+        p = b.layer({'k': 'chain', 'flavour': 'chain', 'layers': layers})
+        for field in (['t', 'u'] if len(layers) > 2 and layers[1] is derived else ['t']):
+            f = p._compile(field)
+            obs = {}
+            for g in ['p1', 'p2', 'p1']:
+                obs.setdefault(g, []).append((digest_of(f, [g]), canon(val_to_json(f(g), world))))
+            want = {g: sorted(i for i in ids if group[i] == g) for g in ('p1', 'p2')}
+            for g in ('p1', 'p2'):
+                for dg, v in obs[g]:
+                    keys = sorted(json.loads(v)['d'][0]) if v.startswith('{"d"') else None
+                    if keys != want[g]:
+                        problems.append({'kind': 'c04', 'layers': [l['k'] for l in layers],
+                                         'msg': f'{field}({g!r}) behind {[l["k"] for l in layers[1:]]} returned the entries {keys}, the group holds {want[g]}'})
+                        return problems
+            if obs['p1'][0][0] == obs['p2'][0][0]:
+                problems.append({'kind': 'c05', 'layers': [l['k'] for l in layers],
+                                 'msg': f'grouped field {field}: the groups p1 {want["p1"]} and p2 {want["p2"]} (members with pairwise equal by-value hashes) '
+                                        f'have the same node hash, their values differ: {obs["p1"][0][1][:80]} vs {obs["p2"][0][1][:80]}'})
+    except Exception as e:
+        problems.append({'kind': 'c04', 'layers': [l['k'] for l in layers], 'msg': 'GroupBy over a by-value field raised ' + exc_name(e) + ': ' + str(e)[:120]})
+    return problems
